@@ -590,6 +590,8 @@ class ChartRules:
                 if any(t == want for t in subterms(e.value)):
                     fail(r_sel, ctx, f, e.node, "the selection flows into the result")
             for c in s.calls:
+                if c.inlined and c.fn[0] in ("func", "closure", "boundcls"):
+                    continue  # the callee's body is part of this summary: its own uses of the selection are examined here
                 for a in list(c.args) + [v for _, v in c.kwargs]:
                     if any(t == want for t in subterms(a)):
                         if c.fn[0] == "builtin" and c.fn[1] in ("frozenset", "set", "tuple", "list"):
